@@ -325,6 +325,33 @@ func execC12(c *Case) {
 		cc := c06Gen(r, "x", "C06")
 		q := renderFasta(splitNames(cc.Get("qnames")), strings.Split(cc.Get("qseqs"), ","), lay)
 		t := renderFasta(splitNames(cc.Get("tnames")), strings.Split(cc.Get("tseqs"), ","), lay)
+		if r.Chance(1, 3) {
+			// scale: sequences of 33 000 - 70 000 columns on one line each (whatever a reader does piecewise or in
+			// parallel for long lines), targets at the same distance from the query that differ in completeness by a
+			// single N, the less complete one first in the file: the tie-break reads the completeness score
+			w := r.PickInt([]int{33000, 40000, 66000, 70000})
+			base := randSeq(r, w, symACGT, false)
+			mut := func(src string, k int, sym string) string {
+				b := []byte(src)
+				for ; k > 0; k-- {
+					j := r.Intn(w)
+					b[j] = r.Pick(strings.ReplaceAll(sym, string(b[j]), ""))
+				}
+				return string(b)
+			}
+			qs := []string{mut(base, 3, symACGT), mut(base, 2, symACGT)}
+			var tn, ts []string
+			for i := 0; i < 3; i++ {
+				full := mut(base, r.Range(1, 3), symACGT)
+				tn = append(tn, fmt.Sprintf("t%d_oneN", i), fmt.Sprintf("t%d_complete", i))
+				ts = append(ts, mut(full, 1, "N"), full)
+			}
+			one := layout{width: 0}
+			q = renderFasta([]string{"qa", "qb"}, qs, one)
+			t = renderFasta(tn, ts, one)
+			cc.Set("measure", r.PickStr([]string{"snp", "raw", "tn93"}))
+			c.Tag("closest-lines-of-tens-of-thousands-of-columns")
+		}
 		run = func(cfg runCfg) result {
 			return safeRun(60*time.Second, func() (string, error) {
 				var out bytes.Buffer
